@@ -21,8 +21,7 @@ def build(tier):
         name = f"roundtrip_{i0:02d}"
         params = "ci: int, lst: bool, latin: bool, n: int, i1: int, i2: int"
         pre = [f"0 <= ci < {nc}", f"1 <= n <= 3", f"0 <= i1 < {nlq} and 0 <= i2 < {nlq}", "n >= 2 or i1 == 0", "n >= 3 or i2 == 0"]
-        if q:
-            pre.append("not latin or ci == 0")
+        pre.append("not latin or ci == 0")  # latin-1 only with the first code (the codec does not depend on the code)
         src += hgen.cond(name, params, pre, f"L.roundtrip(ci, lst, latin, n, {i0}, i1, i2)", sig="hb.KEY")
         conds += [Cond(name, "prop", T, group="roundtrip"), Cond(name + "__twin", "twin", 40, group="roundtrip")]
     n = 2 if q else 3
